@@ -175,6 +175,14 @@ def run(tier, seed, replay=None):
                             {"qml": d.source, "object": o["object"], "path": o["path"], "alarms": o["alarms_dep"], "ir": o.get("ir")})
         # constant bindings live in the .ui, not in the network
         d.resolve_functions(r["header"])
+        probe_states = d.make_states(6)
+        for b in d.bindings:
+            if not b.func:
+                dep = d.state_dependent(b, probe_states)
+                if dep:
+                    v.violation("stale:embedded-as-constant", "binding %s.%s is treated as a constant (no update code) but its source expression "
+                                "denotes %r in one state and %r in another: it can never be current" % (b.target, b.prop, dep[0], dep[1]),
+                                {"program": b.src, "qml": d.source})
         d.bindings = [b for b in d.bindings if b.func]
         if not d.bindings:
             continue
